@@ -163,12 +163,74 @@ def sibling_builders(facts, res):
     import sibling
     R = "C11.3.sibling-builders"
     n = 0
+    # C06.8 (decided on the same facts): the coordinates stored in a group header are the decoding of the index stored next to them,
+    # so a per-group builder may read either; without it the two are different values
+    import c06
+    hdr = tbf.Result("C06")
+    try:
+        stored_is_decoded = c06.header_coordinates(facts, hdr)
+    except AnalysisBroken:
+        stored_is_decoded = False
+    lemmas = {}
+
+    def parent_lemma(cls, helper):
+        """is helper(decode(i)) == decode(parent(i)) for every index i, bit for bit (all dimensions of the class)?"""
+        if (cls, helper) in lemmas:
+            return lemmas[(cls, helper)]
+        import bitdep
+        from bitdep import Bits
+        hs = [m for m in facts.methods_of(cls) if m["name"] == helper and not m.get("inst") and len(m.get("params", [])) == 1 and tbf.body(m) is not None]
+        ok = len(hs) == 1
+        hil = "Hilbert" in cls
+        for dim in ((3,) if hil else (1, 2, 3, 4)):
+            if not ok:
+                break
+            try:
+                nb = dim * (63 // dim)
+                it = bitdep.Interp(facts, {"Dim": dim}, ("Hilbert2Morton", "Morton2Hilbert") if hil else (), cls=cls)
+                it.stop_on_cycle = True
+                dec = [m for m in facts.methods_of(cls) if m["name"] == "getBoxPosFromIndex" and not m.get("inst")][0]
+                par = [m for m in facts.methods_of(cls) if m["name"] == "getParentIndex" and not m.get("inst")][0]
+                lhs = it.call(hs[0], [it.call(dec, [Bits.input("m", nb)])])
+                rhs = it.call(dec, [it.call(par, [Bits.input("m", nb)])])
+                ok = isinstance(lhs, list) and isinstance(rhs, list) and len(lhs) == len(rhs) == dim and \
+                    all(isinstance(a, Bits) and isinstance(b, Bits) and a.b == b.b for a, b in zip(lhs, rhs))
+            except AnalysisBroken:
+                ok = False
+        lemmas[(cls, helper)] = ok
+        res.instance(R + ".cell-vs-group", "lemma %s::%s(decode(i)) == decode(parent(i))" % (cls, helper), facts.loc(hs[0]) if hs else cls,
+                     "proven bit for bit by provenance" if ok else "not provable (the decoder of this ordering is not a plain de-interleave of its argument): the two forms stay different expressions")
+        return ok
+
+    def apply_lemma(cls, k):
+        """rewrites helper(decode(X)) into decode(parent(X)) wherever the identity is proven for this ordering"""
+        m0 = re.match(r"^call (?:\*?this)?\.?(\w+)\(", k)
+        if m0 and (m0.group(1) in ("getBoxPosFromIndex", "getParentIndex") or (m0.group(1) != "getIndexFromBoxPos" and any(mm["name"] == m0.group(1) and len(mm.get("params", [])) == 1 and "array" in mm["params"][0].get("t", "") for mm in facts.methods_of(cls)) and parent_lemma(cls, m0.group(1)))
+                   or re.match(r"^call \w+\.get(Cell|Leaf)BoxCoord\(", k)):
+            return "call <pure coordinate conversion>"   # const conversions whose values are compared where they are used (cond / assign atoms)
+        if stored_is_decoded:
+            k = re.sub(r"(\w+)\.get(Cell|Leaf)BoxCoord\(([^()]*)\)", r"*this.getBoxPosFromIndex(\1.get\2SpacialIndex(\3))", k)
+        out, pos = "", 0
+        for m in re.finditer(r"(?:\*this\.)?(\w+)\(\*this\.getBoxPosFromIndex\(", k):
+            if m.start() < pos or m.group(1) in ("getBoxPosFromIndex", "getIndexFromBoxPos", "AddVecToVec"):
+                continue
+            d, j = 1, m.end()
+            while j < len(k) and d:
+                d += {"(": 1, ")": -1}.get(k[j], 0)
+                j += 1
+            if d or j >= len(k) or k[j] != ")":
+                continue
+            if not any(mm["name"] == m.group(1) for mm in facts.methods_of(cls)) or not parent_lemma(cls, m.group(1)):
+                continue
+            out += k[pos:m.start()] + "*this.getBoxPosFromIndex(*this.getParentIndex(" + k[m.end():j - 1] + "))"
+            pos = j + 1
+        return out + k[pos:]
     for name in LIST_BUILDERS:
         a = [m for m in facts.methods_of(ORDERINGS[0]) if m["name"] == name]
         b = [m for m in facts.methods_of(ORDERINGS[1]) if m["name"] == name]
         if len(a) != 1 or len(b) != 1:
             raise AnalysisBroken("list builder %s not found in both ordering classes" % name)
-        sibling.compare(facts, res, R, a[0], b[0], what="ordering ")
+        sibling.compare(facts, res, R, a[0], b[0], what="ordering ", rewrite=apply_lemma, proven_helper=parent_lemma)
         n += 1
     for cls in ORDERINGS:
         for x, y in (("getInteractionListForIndex", "getInteractionListForBlock"), ("getNeighborListForIndex", "getNeighborListForBlock")):
@@ -189,6 +251,8 @@ def sibling_builders(facts, res):
                         continue
                     # locals are numbered per function; the two builders declare different sets, so number again by first use among the compared atoms
                     k = re.sub(r"(local|mutable):[uv]\d+", renumber, k)
+                    if per_block:
+                        k = apply_lemma(cls, k)
                     k2 = re.sub(r"param0\.get(Cell|Leaf)SpacialIndex\(loopvar\)", "CELL", k) if per_block else k.replace("param0", "CELL")
                     k2 = re.sub(r"param1", "LEVEL", k2) if per_block else k2.replace("param1", "LEVEL")
                     out[k2] = v
